@@ -75,6 +75,11 @@ pub uninterp spec fn compat(expected: TL, supplied: TL, f: Flags) -> bool;
 pub broadcast axiom fn induction_hypothesis(a: TL, b: TL, f: Flags) ensures (#[trigger] compat(a, b, f) && plain(f) && closed(a) && closed(b) && no_nil_slot(a)) ==> subset(a, b);
 // `lhs == rhs` (derived PartialEq, with ListType::eq / FunctionType::eq inside: C02.compat.listtype.eq, C02.compat.function.eq): equal types admit the same values
 #[verifier::external_body] pub fn same_type(a: &TL, b: &TL) -> (r: bool) ensures r ==> subset(*a, *b) { unimplemented!() }
+// C16 (cost discipline): `==` on two lists / two present optionals compares their components through eq_complex (ListType::eq, derived eq of the
+// payload) -- which the arm for that pair then does again, at every level of nesting (2^depth comparisons: D88).  `==` may only be asked of a pair
+// whose arm does not descend into the components.
+pub open spec fn verif_by_components(a: TL, b: TL) -> bool { (a is List && b is List) || (a is Optional && a->Optional_0 is Some && b is Optional && b->Optional_0 is Some) }
+#[verifier::external_body] pub fn same_type_cheap(a: &TL, b: &TL) -> (r: bool) requires !verif_by_components(*a, *b) { unimplemented!() }
 impl GenericV { #[verifier::external_body] pub fn is_compatible(&self, other: &TL, flags: &Flags) -> (r: bool) { unimplemented!() } }
 impl ClassV { #[verifier::external_body] pub fn to_owned(&self) -> (r: ClassV) ensures r == *self { unimplemented!() }
               pub fn deref(&self) -> (r: &ClassV) ensures *r == *self { self } }
@@ -111,7 +116,7 @@ def build(repo):
     b = translate(body, [
         Rule("R1", "Cow :: Borrowed ( $$e )", "$$e", why="Cow::Borrowed(&T): the same reference"),
         Rule("R1", "$v . as_ref ( )", "$v", why="Cow::as_ref / Box::as_ref: the same reference"),
-        Rule("R6", "if lhs == rhs {", "if same_type ( lhs , rhs ) {", why="PartialEq for TypeLayout: abstract, equal types admit the same values"),
+        Rule("R6", "lhs == rhs", "same_type ( lhs , rhs )", why="PartialEq for TypeLayout: abstract, equal types admit the same values"),
         Rule("R1", "! rhs . is_optional ( ) . 0", "! rhs . is_optional ( ) . 0", why="(only under force_rhs_to_be_unwrapped_lhs)"),
         Rule("R1", "TypeLayout :: Class", "TL :: Class", why="TypeLayout -> model type"),
         Rule("R1", "Self :: $v", "TL :: $v", why="Self -> model type"),
@@ -119,6 +124,7 @@ def build(repo):
         Rule("R1", "& flags )", "flags )", why="flags are already a reference"),
     ], log, "eq_complex")
     check_closed(b, "eq_complex")
+    bcost = [("same_type_cheap" if t == "same_type" else t) for t in b]
     gen = header(log, f"{TYPE}: TypeLayout::eq_complex (whole function; list arms by their fragment contracts)") + SPEC + f"""
 //@ OBL C02.compat.sound
 pub fn eq_complex(self_: &TL, rhs: &TL, flags: &Flags) -> (r: bool)
@@ -130,14 +136,51 @@ pub fn eq_complex(self_: &TL, rhs: &TL, flags: &Flags) -> (r: bool)
 {render(b, 1)}
 }}
 
+//@ OBL C16.compat.components-once
+// the same text: the components of two lists / two present optionals are compared ONCE per level
+pub fn eq_complex_cost(self_: &TL, rhs: &TL, flags: &Flags) -> (r: bool)
+{{
+{render(bcost, 1)}
+}}
+
+// ---- a lemma over the contract of ListType::try_coerce_to_open (obligation C02.coerce.open of unit c02_compat): a fixed-shape list is
+// treated as `[T...]`, T = slot 0, only if every adjacent pair of slots is compatible -- then every value of the fixed-shape type is a value of `[T...]`
+pub open spec fn adj(t: Seq<TL>, j: int, f: Flags) -> bool {{ compat(t[j], t[j + 1], f) }}
+pub open spec fn chain(t: Seq<TL>, f: Flags) -> bool {{ forall|j: int| 0 <= j && j + 1 < t.len() ==> #[trigger] adj(t, j, f) }}
+pub proof fn lemma_chain(ts: Seq<TL>, f: Flags, k: int)
+    requires chain(ts, f), plain(f), 0 <= k < ts.len(), forall|j: int| 0 <= j < ts.len() ==> closed(#[trigger] ts[j]) && no_nil_slot(ts[j]),
+    ensures subset(ts[0], ts[k]),
+    decreases k,
+{{
+    broadcast use induction_hypothesis;
+    if k > 0 {{ lemma_chain(ts, f, k - 1); assert(adj(ts, k - 1, f)); assert(subset(ts[k - 1], ts[k])); }}
+}}
+//@ OBL C02.coerce.sound
+pub proof fn lemma_coerce_sound(ts: Vec<TL>, f: Flags, open: TL)
+    requires ts@.len() > 0, chain(ts@, f), plain(f), forall|j: int| 0 <= j < ts@.len() ==> closed(#[trigger] ts@[j]) && no_nil_slot(ts@[j]),
+             open is List, open->List_0 is Open, *open->List_0->Open_0 == ts@[0],           // what try_coerce_to_open returns (C02.coerce.open)
+    ensures subset(open, TL::List(ListType::Mixed(ts))),
+{{
+    broadcast use meaning;
+    let m = TL::List(ListType::Mixed(ts));
+    assert forall|v: Val| #[trigger] inhab(m, v) implies inhab(open, v) by {{
+        assert(m->List_0 is Mixed);
+        assert forall|i: int| 0 <= i < v->List_0.len() implies inhab(ts@[0], #[trigger] v->List_0[i]) by {{
+            lemma_chain(ts@, f, i);
+            assert(inhab(m->List_0->Mixed_0@[i], v->List_0[i]));
+        }}
+        assert(open->List_0 is Open);
+    }}
+}}
 }} // verus!
 fn main() {{}}
 """.replace("self.disregard_distractors", "self_.disregard_distractors")
-    return gen, [Obl("C02.coerce.sound", ["C02"], fn="ListType::try_coerce_to_open (lemma over its contract)", desc="a fixed-shape list that try_coerce_to_open accepts as `[T...]` only holds T values: every value of the fixed-shape type is a value of `[T...]` (lemma over C02.coerce.open and the induction hypothesis)"),
+    return gen, [Obl("C16.compat.components-once", ["C16"], fn="TypeLayout::eq_complex", desc="cost discipline: `==` is only asked of a pair whose arm does not descend into the components -- two lists / two present optionals are compared by their arm alone, once per level (D88: 2^depth)"),
+                 Obl("C02.coerce.sound", ["C02"], fn="ListType::try_coerce_to_open (lemma over its contract)", desc="a fixed-shape list that try_coerce_to_open accepts as `[T...]` only holds T values: every value of the fixed-shape type is a value of `[T...]` (lemma over C02.coerce.open and the induction hypothesis)"),
                  Obl("C02.compat.sound", ["C02", "C12"], fn="TypeLayout::eq_complex", desc="eq_complex answers true only if every run-time value of the supplied type is a value of the expected type (inductive step over every arm, in match order; closed types, plain flags, expected type without a literal-nil slot)")], log
 
 
-UNITS = [VUnit("c02_compat_sound", ["C02", "C12"], "type compatibility is sound: accepted => the supplied type's values are values of the expected type", build)]
+UNITS = [VUnit("c02_compat_sound", ["C02", "C12", "C16"], "type compatibility is sound: accepted => the supplied type's values are values of the expected type", build)]
 UNITS[0].assumes = ["induction hypothesis for the recursive calls on component types is an axiom (partial correctness; termination of eq_complex is not proved)",
                     "the meaning of types (which run-time values a type admits) is the stated axioms: nil-type, T?, fixed-shape and open lists, strings of any compile-time length; other types are opaque",
                     "PartialEq for TypeLayout (`lhs == rhs`): equal types admit the same values (assumed; its list / function parts are C02.compat.listtype.eq / function.eq); disregard_distractors keeps the admitted values",
